@@ -88,6 +88,57 @@ def r1_fixed_cost(repo, rep, f, ctx):
   return n
 
 
+def r1b_variable_cost(repo, rep, f, ctx):
+  """Column table of the variable-cost branch: every figure derives from the paired simulations
+  sims_iroas = rvs(response posterior) / rvs(cost posterior over the test period)."""
+  g, rd = ctx.g, ctx.rd
+  cols = {}
+  rname = None
+  for n in g.nodes:
+    if n.kind == 'stmt' and isinstance(n.ast, ast.Assign) and isinstance(n.ast.targets[0], ast.Subscript) and isinstance(n.ast.targets[0].value, ast.Name):
+      col = au.const(n.ast.targets[0].slice)[1]
+      if isinstance(col, str):
+        d = rd.single_def(n, n.ast.targets[0].value.id)
+        if d is not None and d.value is not None and norm(d.value).startswith('pd.DataFrame(index='):
+          cols.setdefault(col, []).append(n)
+          rname = n.ast.targets[0].value.id
+  if not cols:
+    rep.undecided('R1/variable-cost-table', 'TBRiROAS.summary', 'variable-cost report not found', f.loc())
+    return
+  keep = ('random_state', 'nsims', 'tail_probability', 'posterior_threshold', 'level', 'tails')
+  RESP = 'self.tbr_response.causal_cumulative_distribution(time=-1)'
+  COST = 'self.tbr_cost.causal_cumulative_distribution(periods=(self.periods.test,), time=-1)'
+  SIMS = '%s.rvs(nsims, random_state=random_state) / %s.rvs(nsims, random_state=random_state)' % (RESP, COST)
+  want = {
+      'estimate': ['np.mean(%s)' % SIMS, 'np.median(%s)' % SIMS],
+      'lower': ['np.percentile(%s, 100 * tail_probability)' % SIMS],
+      'upper': ['np.percentile(%s, 100 * (1 - tail_probability))' % SIMS, 'np.inf'],
+      'probability': ['np.mean(%s > posterior_threshold)' % SIMS],
+      'incremental_cost': ["%s.kwds['loc']" % COST],
+      'incremental_response': ["%s.kwds['loc']" % RESP],
+      'incremental_response_lower': ['%s.ppf(tail_probability)' % RESP],
+      'incremental_response_upper': ['%s.ppf(1 - tail_probability)' % RESP, 'np.inf'],
+      'scenario': ["'variable'"],
+  }
+  n_ok = 0
+  for col, forms in want.items():
+    if col not in cols:
+      rep.violation('R1/variable-cost-table', f.qualname, 'column %s missing' % col, 'the variable-cost report has no %s column' % col, f.loc())
+      continue
+    for n in cols[col]:
+      t = norm(rd.expand(n, n.ast.value, depth=12, keep=keep)[0])
+      n_ok += 1
+      rep.check(t in forms, 'R1/variable-cost-table', 'variable-cost %s = %s' % (col, t[:60]), f.qualname, '%s = %s' % (col, t[:140]),
+                'in the variable-cost report %s is `%s`; expected %s (ratio of the paired response and cost simulations / quantities of the two posteriors)'
+                % (col, t[:120], ' or '.join(x[:80] for x in forms)), f.loc(n.ast))
+  if 'precision' in cols:
+    for n in cols['precision']:
+      t = norm(n.ast.value)
+      rep.check(re.fullmatch(r"%s\['estimate'\] - \w+" % rname, t) is not None and norm(rd.expand(n, n.ast.value, depth=12, keep=keep)[0]).endswith('np.percentile(%s, 100 * tail_probability)' % SIMS),
+                'R1/variable-cost-table', 'variable-cost precision = estimate - lower', f.qualname, 'precision = %s' % t[:80], 'precision is `%s`, not estimate - lower' % t[:80], f.loc(n.ast))
+  rep.floor('variable-cost report columns checked', n_ok, 9)
+
+
 def r2_determinism(repo, rep, f, ctx):
   g, rd = ctx.g, ctx.rd
   n_draw = 0
@@ -191,6 +242,7 @@ def run(repo, rep, tier):
   rep.fn(f)
   ctx = FuncCtx.of(f)
   r1_fixed_cost(repo, rep, f, ctx)
+  r1b_variable_cost(repo, rep, f, ctx)
   r2_determinism(repo, rep, f, ctx)
   r3_scenario(repo, rep)
   tbrrules.kwarg_subdict_rule(repo, rep, 'R3/scenario')
